@@ -1,6 +1,7 @@
 CONSTANTS
   Req <- MCReq
   MaxSlots = 2
+  Redesign = FALSE
 INIT Init
 NEXT Next
 INVARIANT TypeOK
